@@ -475,6 +475,93 @@ def execute(sc):
                 sim_seconds=sim_seconds, trace=trace)
 
 
+# ------------------------------------------------------------------ conservation (stat jobs)
+def stat_jobs(tier, seed):
+    N = 12000 if tier == "thorough" else 1500
+    jobs = [dict(layer="conservation", chain="gibbs", temps=[1.0, 2.5, 6.0, 15.0], swaps=3, N=N, seed=(seed * 7919 + 1) & 0x7FFFFFFF),
+            dict(layer="conservation", chain="hmc", temps=[1.0, 3.0, 9.0], swaps=2, N=N, seed=(seed * 7919 + 2) & 0x7FFFFFFF),
+            dict(layer="conservation", chain="metropolis", temps=[2.0, 4.0, 8.0, 16.0, 32.0], swaps=4, N=N, seed=(seed * 7919 + 3) & 0x7FFFFFFF)]
+    return jobs
+
+
+def run_job(job):
+    """Exchange conservation: chains started from exact draws of pi^(1/T_k); swap() only. Each level's law must
+    stay pi^(1/T_k): exact-null uniformity test of the probability-integral transforms, level by level."""
+    import collections
+    from scipy import stats as sps
+
+    stats = collections.Counter()
+    V = []
+    temps = job["temps"]
+    K = len(temps)
+    N = int(job["N"])
+    d = 2
+    spec = dict(kind="gauss", d=d, s=[1.0, 2.0])
+    out = np.empty((N, K, d))
+    base = rctx.new_run(job["seed"], record=False)
+    master = np.random.Generator(np.random.PCG64(base.child_seed(31)))
+    sim_seconds = 0.0
+    nsucc = 0
+    for n in range(N):
+        c = rctx.new_run(int(master.integers(0, 2 ** 31 - 1)), record=False)
+        seams.seed_global_streams(c.seed)
+        sim = kernel.Sim(n, dict(canonical=True))
+        sim.keep_events = False
+        mp = kernel.SimMP(sim)
+        try:
+            with seams.Seams(sim=sim, mp=mp):
+                from inference.mcmc.parallel import ParallelTempering
+
+                srng = np.random.Generator(np.random.PCG64(c.child_seed(9)))
+                chains = []
+                for k, T in enumerate(temps):
+                    tg = targets.make_target(spec, tag="c%d" % k)
+                    x0 = tg.draw(srng, T)
+                    chains.append(build.build_chain(dict(kind=job["chain"], T=T, display=False, widths=[1.0] * d, epsilon=0.3,
+                                                         bounds=None, knobs=dict(steps=3)), tg, x0))
+                c.sim = sim
+                pt = ParallelTempering(chains)
+                for _ in range(int(job["swaps"])):
+                    pt.swap()
+                got = pt.return_chains()
+                nsucc += int(pt.successful_swaps.sum())
+                pt.shutdown()
+                for k in range(K):
+                    out[n, k] = np.asarray(got[k].get_sample(burn=0))[-1]
+        finally:
+            c.sim = None
+            sim.shutdown_all()
+        sim_seconds += sim.now
+    tg = targets.make_target(spec)
+    ntests = 3 * K * 4
+    worst = None
+    for k, T in enumerate(temps):
+        F = tg.functionals(out[:, k, :], T)
+        for name, U in F.items():
+            cnt = np.histogram(np.clip(U, 0, 1), bins=np.linspace(0, 1, 21))[0]
+            chi = float(((cnt - N / 20) ** 2 / (N / 20)).sum())
+            pc = float(sps.chi2.sf(chi, 19))
+            lo = sps.binom.cdf(cnt, N, 0.05)
+            hi = sps.binom.sf(cnt - 1, N, 0.05)
+            pb = float(np.minimum(1.0, 2 * np.minimum(lo, hi)).min())
+            stats["functionals_tested"] += 1
+            if worst is None or chi > worst[2]:
+                worst = (T, name, chi)
+            if pb < 1e-9 / ntests or pc < 1e-10 / ntests:
+                V.append(dict(invariant="swap.conservation", key=dict(chain=job["chain"]),
+                              detail="%s chains at T=%r started from exact draws of pi^(1/T), %d swap() rounds through the simulated "
+                                     "workers: the chain at T=%g no longer follows pi^(1/T) (functional %s: chi2_19 = %.1f, p = %.3g, "
+                                     "smallest exact bin tail %.3g, N = %d; %d exchanges accepted)"
+                                     % (job["chain"], temps, job["swaps"], T, name, chi, pc, pb, N, nsucc)))
+                break
+        if V:
+            break
+    stats["conservation_replicas"] += N
+    stats["probe_conservation_exchanges_accepted"] += nsucc
+    return dict(violations=V, stats=dict(stats), evaluations=N, digests=[digest(job)], nontrivial_ids=[digest(job)],
+                sim_seconds=sim_seconds, sample=dict(job=job, worst=worst, exchanges_accepted=nsucc))
+
+
 def describe():
     return dict(
         rule=("Hypothesis-generated scenarios (chain class, 1-6 chains, temperature ladder, op list over take_steps/"
